@@ -16,8 +16,8 @@ import vlib
 import progs
 import specdiff
 
-THEOREM_MODULES = ["Yarel.Props.C08"]
-REQUIRED_THEOREMS = []
+THEOREM_MODULES = ["Yarel.Props.C15", "Yarel.Props.C09"]
+REQUIRED_THEOREMS = ["residue_fresh", "residue_fresh_after_any_run", "reset_eq_new", "execute_dual"]
 LEVEL = "proof"
 ASSUMPTIONS = [
     "residue = (exception-in-flight flag, class definition in progress, active fiber's stack/frames/handlers, fiber designators) as "
@@ -124,10 +124,32 @@ def observed(case):
     return [st for st in case["steps"] if st.get("status") not in ("module",)]
 
 
+def prologue_matches_source():
+    """The reuse model's `executePrologue` and `reset` are a transcription of the first statements of Vm::execute and of
+    Vm::reset; re-read them from the current source so that an edit there breaks the tie visibly."""
+    import os, re
+    src = open(os.path.join(vlib.REPO, "yarel", "src", "vm.rs"), encoding="utf-8").read()
+    problems = []
+    m = re.search(r"pub fn execute\(.*?\n    \}\n", src, re.S)
+    body = m.group(0) if m else ""
+    head = body.split("self.load_fiber(")[0]
+    for stmt in ("self.ip = ptr::null();", "self.fiber = None;", "self.handling_exception = false;"):
+        if stmt not in head:
+            problems.append("Vm::execute no longer begins with `%s` (model: executePrologue)" % stmt)
+    if "self.new_root_obj_fiber(" not in head:
+        problems.append("Vm::execute no longer creates a new fiber per run (model: executePrologue)")
+    m = re.search(r"pub fn reset\(.*?\n    \}\n", src, re.S)
+    body = m.group(0) if m else ""
+    for stmt in ("self.reset_stack();", "self.range_cache.clear();", "self.modules.retain(", "self.init_built_in_globals(\"main\")"):
+        if stmt not in body:
+            problems.append("Vm::reset no longer contains `%s` (model: reset)" % stmt)
+    return problems
+
+
 def correspondence(ctx, model_ok=True):
     rng = ctx.rng.fork("c15")
     failures = []
-    broken = []
+    broken = ["reuse model out of date: " + p for p in prologue_matches_source()]
     n_hist = 600 if ctx.thorough else 100
     hists = [gen_history(rng.fork("h%d" % i)) for i in range(n_hist)]
     corpus = progs.corpus_dir("C15")
@@ -184,10 +206,22 @@ def correspondence(ctx, model_ok=True):
                         break
     # (c) reset == new
     n_reset = 200 if ctx.thorough else 40
-    for i in range(n_reset):
+    directed = [
+        # identity-compared values cached inside the interpreter must not survive a reset
+        (["var x = 1..3; var a1 = 10..11; var a2 = 11..12; var a3 = 12..13; var a4 = 13..14; var a5 = 14..15; var a6 = 15..16; var a7 = 16..17;\n"],
+         ["var r = 1..3; var b1 = 20..21; print(r == 1..3);\n"]),
+        (["import \"okmod\";\nokmod.value = 99;\n"], ["import \"okmod\";\nprint(okmod.value);\n"]),
+        (["var g = 1;\nfn f() { return g; }\nclass C {}\n"], ["try { print(g); } catch e { print(e.context); }\ntry { f(); } catch e { print(e.context); }\nprint(type(print));\n"]),
+        (["throw \"x\";\n"], [PROBE]),
+        (["var NotC = 1;\n#[derive(NotC)]\nclass Bad {}\n"], [PROBE]),
+    ]
+    for i in range(n_reset + len(directed)):
         r2 = rng.fork("r%d" % i)
-        pre, _, _ = gen_history(r2.fork("pre"))
-        post, _, _ = gen_history(r2.fork("post"))
+        if i < len(directed):
+            pre, post = directed[i]
+        else:
+            pre, _, _ = gen_history(r2.fork("pre"))
+            post, _, _ = gen_history(r2.fork("post"))
         l1 = vlib.case_line("r%d" % i, steps_of(pre) + ["R"] + steps_of(post)[len(MODULES):], steps=2000000)
         l2 = vlib.case_line("n%d" % i, steps_of(post), steps=2000000)
         x1, x2 = vlib.run_real(ctx.runner, [l1, l2])
